@@ -308,15 +308,15 @@ def _k_opt_map(eng, st, fr, kd, rv):
     from .mir import parse_place
     eng.store(st, fr, parse_place(dst), wrap(rv)); return eng.jump(st, fr, tgt)
 
-@model(r'^(?:std::option::)?Option::<.*>::(map|and_then|map_or_else|unwrap_or_else|or_else|ok_or_else|filter|is_some_and)::<.*>$')
+@model(r'^(?:std::option::)?Option::<.*>::(map|and_then|map_or_else|map_or|unwrap_or_else|or_else|ok_or_else|filter|is_some_and)::<.*>$')
 def m_opt_closure(ctx):
-    kind = re.search(r'::(map|and_then|map_or_else|unwrap_or_else|or_else|ok_or_else|filter|is_some_and)::<', ctx.callee).group(1)
+    kind = re.search(r'::(map_or_else|map_or|map|and_then|unwrap_or_else|or_else|ok_or_else|filter|is_some_and)::<', ctx.callee).group(1)
     s_, p = opt_parts(ctx, ctx.args[0]); eng = ctx.eng; dst = ctx.dst; tgt = ctx.tgt
     from .mir import parse_place
     def run(clo, args, wrap):
         def act(st2, fr2):
-            c2 = type(ctx)(eng, st2, fr2, dst, ctx.callee, ctx.argstrs, ctx.args, tgt)
-            return eng.call_closure(c2, clo, args, _k_opt_map, (dst, tgt, wrap))
+            from .containers import call_closure
+            return call_closure(eng, st2, fr2, clo, args, _k_opt_map, (dst, tgt, wrap))
         return act
     if kind == 'map':
         return ctx.forks([(s_, run(ctx.args[1], (p,), some)), (Not(s_), none())])
@@ -330,6 +330,8 @@ def m_opt_closure(ctx):
         return ctx.forks([(s_, ok(p)), (Not(s_), run(ctx.args[1], (), err))])
     if kind == 'is_some_and':
         return ctx.forks([(s_, run(ctx.args[1], (p,), lambda x: x)), (Not(s_), BoolVal(False))])
+    if kind == 'map_or':
+        return ctx.forks([(s_, run(ctx.args[2], (p,), lambda x: x)), (Not(s_), ctx.args[1])])
     if kind == 'map_or_else':
         return ctx.forks([(s_, run(ctx.args[2], (p,), lambda x: x)), (Not(s_), run(ctx.args[1], (), lambda x: x))])
     return NotImplemented
@@ -339,8 +341,8 @@ def m_res_closure(ctx):
     is_ok, o, e = res_parts(ctx, ctx.args[0]); eng = ctx.eng; dst = ctx.dst; tgt = ctx.tgt
     def run(clo, args, wrap):
         def act(st2, fr2):
-            c2 = type(ctx)(eng, st2, fr2, dst, ctx.callee, ctx.argstrs, ctx.args, tgt)
-            return eng.call_closure(c2, clo, args, _k_opt_map, (dst, tgt, wrap))
+            from .containers import call_closure
+            return call_closure(eng, st2, fr2, clo, args, _k_opt_map, (dst, tgt, wrap))
         return act
     if kind == 'map': return ctx.forks([(is_ok, run(ctx.args[1], (o,), ok)), (Not(is_ok), err(e))])
     if kind == 'map_err': return ctx.forks([(is_ok, ok(o)), (Not(is_ok), run(ctx.args[1], (e,), err))])
@@ -478,3 +480,16 @@ def m_pre_is_empty(ctx):
     p = ctx.deref(ctx.args[0]); return ctx.ret(as_str(ctx, p).len == bv64(0))
 @model(r'^<(?:semver::)?Version as Clone>::clone$')
 def m_version_clone(ctx): return ctx.ret(ctx.deref(ctx.args[0]))
+
+# ---------------------------------------------------------------------------- miette spans, logos contract pieces
+
+@model(r'^<usize as Into<(?:miette::)?SourceOffset>>::into$|^<(?:miette::)?SourceOffset as From<usize>>::from$|^(?:miette::)?SourceOffset::offset$')
+def m_source_offset(ctx): return ctx.ret(ctx.deref(ctx.args[0]))
+@model(r'^(?:miette::)?SourceSpan::new$')
+def m_sourcespan_new(ctx): return ctx.ret(Agg((ctx.term(ctx.args[0], 'usize'), ctx.term(ctx.args[1], 'usize')), 'SourceSpan'))
+@model(r'^(?:miette::)?SourceSpan::offset$')
+def m_sourcespan_offset(ctx): return ctx.ret(ctx.term(ctx.deref(ctx.args[0]).f[0] if isinstance(ctx.deref(ctx.args[0]), Agg) else ctx.deref(ctx.args[0]).kid('0', 'usize'), 'usize'))
+@model(r'^(?:miette::)?SourceSpan::len$')
+def m_sourcespan_len(ctx): return ctx.ret(ctx.term(ctx.deref(ctx.args[0]).f[1] if isinstance(ctx.deref(ctx.args[0]), Agg) else ctx.deref(ctx.args[0]).kid('1', 'usize'), 'usize'))
+@model(r'^<(?:miette::)?SourceSpan as Clone>::clone$')
+def m_sourcespan_clone(ctx): return ctx.ret(ctx.deref(ctx.args[0]))
